@@ -391,6 +391,21 @@ def S_C03c():
         return bool(img.dataobj[1, 2, 3] != full[1, 2, 3] or img.dataobj[0, 0, 0] != full[0, 0, 0])
 
 
+def S_C16b():
+    from nibabel.streamlines import TrkFile, TckFile, Tractogram
+    sl = [np.arange(6, dtype='f4').reshape(2, 3) + i for i in range(3)]
+    bad = False
+    for cls in (TrkFile, TckFile):
+        b = io.BytesIO()
+        cls(Tractogram(sl, affine_to_rasmm=np.eye(4))).save(b)
+        b.seek(0)
+        t = cls.load(b, lazy_load=True)
+        bad |= b.tell() != 0
+        list(t.streamlines)
+        bad |= b.tell() != 0
+    return bad
+
+
 PROBES = {n: f for n, f in list(globals().items()) if n.startswith('S_C') and callable(f)}
 
 if __name__ == '__main__':
